@@ -55,7 +55,7 @@ claim("C14", "K", K,
       "Kernel level (narrow): AttributionData layout - shift_right/shift_left inverse on the retained bytes, hold-time and HMAC slot movement - for fully symbolic 920-byte contents. Onion construction/peeling and all cryptography are outside the claim.",
       "trusted: Kani/CBMC")
 claim("C03", "M", "SMT bounded model checking of MIR (z3 + cvc5 portfolio)",
-      "Kernel level (narrow): the payer's bookkeeping of one outbound payment - OutboundPayments::claim_htlc, fail_htlc, abandon_payment and add_new_pending_payment executed from the MIR on one entry of the pending-payment map in each state (Legacy / Retryable / Fulfilled / Abandoned, awaiting-invoice states for abandon), fields symbolic: PaymentSent is queued exactly once, when a claim meets a payment not yet fulfilled, and never for an unknown id; a fulfilled payment is never reported failed; a failed in-flight HTLC is reported once and PaymentFailed is queued exactly when it was the last HTLC of an abandoned payment - at most once, after the path failure, carrying the completion action - and the entry is dropped then and only then; duplicate failures and claims change nothing; abandoning reports failure at once only with no HTLC in flight and never un-fulfils a payment; a payment id in use is refused. The in-flight set is abstracted to its size, onion-failure decoding / hashing / the retry policy are free. Replayed on live nodes (five single-path scenarios and a two-part payment with one part failing while the other is in flight, driven by the library's test utilities, which assert the payer's events at every step). That the ChannelManager calls these functions exactly when HTLCs resolve (off-chain, on-chain, after restart), balances, retries and event replay across restarts are outside the claim.",
+      "Kernel level (narrow): the payer's bookkeeping of one outbound payment - OutboundPayments::claim_htlc, fail_htlc, abandon_payment and add_new_pending_payment executed from the MIR on one entry of the pending-payment map in each state (Legacy / Retryable / Fulfilled / Abandoned, awaiting-invoice states for abandon), fields symbolic: PaymentSent is queued exactly once, when a claim meets a payment not yet fulfilled, and never for an unknown id; a fulfilled payment is never reported failed; a failed in-flight HTLC is reported once and PaymentFailed is queued exactly when it was the last HTLC of an abandoned payment - at most once, after the path failure, carrying the completion action - and the entry is dropped then and only then; duplicate failures and claims change nothing; abandoning reports failure at once only with no HTLC in flight and never un-fulfils a payment; a payment id in use is refused; an HTLC found in a monitor at start-up is tracked again whatever state the persisted entry is in (insert_from_monitor_on_startup); after a partially failed multi-part send only the parts that were not committed are forgotten (filter closure of handle_pay_route_err). The in-flight set is abstracted to its size, onion-failure decoding / hashing / the retry policy are free. Replayed on live nodes (five single-path scenarios, a two-part payment with one part failing while the other is in flight, and an on-chain failure whose terminal event must be replayed after a restart; driven by the library's test utilities, which assert the payer's events at every step). That the ChannelManager calls these functions exactly when HTLCs resolve (off-chain, on-chain, after restart), balances, retries and event replay across restarts are outside the claim.",
       "trusted: rustc MIR dump, engine_m, z3/cvc5; summaries of PendingOutboundPayment::remove / remaining_parts checked against their MIR per variant (C03.m)")
 claim("C09", "M", "SMT bounded model checking of MIR (z3 + cvc5 portfolio)",
       "Kernel level (narrow): the bookkeeping that decides when a monitor update counts as complete and what is released then. ChainMonitor::channel_monitor_updated (<= 3 / 4 pending updates, arbitrary ids): completing an update removes exactly it from the pending list and the Completed event is raised iff no update of the channel is pending any more, whatever the order of completions. ChainMonitor::update_channel_internal: the update is applied to the monitor exactly once and before the persister is invoked; an update whose persistence is in progress is appended to the pending list and only then; Completed is reported only if it applied, persisted at once and the channel is not post-close. FundedChannel::monitor_updating_restored (region from the peer-connected test to its end, arbitrary state): a revoke_and_ack / commitment update leaves only if that message was being held, every held message the signer can produce leaves unless its predecessor still waits for the signer, in the recorded order, and the hold flags are cleared. Replayed on two live nodes whose persister answers InProgress (sender-side and receiver-side hold, a completion for a foreign update id). That every state-revealing action is routed through this bookkeeping, blocked updates, the deferred mode and restarts are outside the claim.",
